@@ -63,9 +63,11 @@ def draw_config(rng, mode="bounded", allow_restart=False, faults=True):
     c["bias_refs"] = rng.random() < 0.5
     c["near_ids"] = rng.random() < 0.15
     # a directed motif woven into the random steps of some runs (see QsRun._motif_step)
-    c["motif"] = {"kind": rng.choice(["reincarnate", "reincarnate", "deadlines"]), "drop": rng.random() < 0.6,
-                  "p": rng.choice([0.4, 0.7]), "short": rng.choice([5, 60]), "restart": allow_restart} \
-        if rng.random() < 0.12 else None
+    c["motif"] = {"kind": rng.choice(["reincarnate", "reincarnate", "deadlines", "window", "window", "window"]),
+                  "drop": rng.random() < 0.6, "p": rng.choice([0.4, 0.7]), "short": rng.choice([5, 60]),
+                  "restart": allow_restart, "events": rng.randint(2, 3),
+                  "pull": rng.choice([[], [], "one", "two"])} \
+        if rng.random() < 0.18 else None
     c["backdoor"] = rng.random() < 0.06  # deployment knob QSERVE_BACKDOOR
     c["faults"] = faults
     return c
@@ -231,6 +233,70 @@ class QsRun:
     def _sendable(self, names):
         return [n for n in names if self.sim.can_send(n)]
 
+    def _motif_window(self, m, sendable):
+        """'A storm in the hand-off window': a worker blocks in qpull; a job is added and handed to it;
+        before the event loop runs again two or three more things happen - a job on another (perhaps
+        never used) channel, the handed-off job killed / finished / dropped, the worker's connection
+        closed or reset, another worker pulling, a timer tick."""
+        rng, model, c = self.rng, self.model, self.config
+        cid = self.sim.cid
+        k = m["stage"]
+        m["stage"] += 1
+        if k == 0:
+            ws = [n for n in self._sendable(c.workers) if cid(n) not in model.pulls]
+            if not ws:
+                self._motif_state = None
+                return None
+            chans = m["pull"]
+            if chans == "one":
+                chans = [rng.choice(c.channels)]
+            elif chans == "two":
+                chans = sorted(rng.sample(c.channels, min(2, len(c.channels))), key=str)
+            m["W"], m["chans"] = rng.choice(ws), chans
+            return ["send", m["W"], "qpull", {"channels": chans}]
+        if k == 1:
+            return ["run"]
+        if cid(m["W"]) not in model.pulls and k == 2:
+            self._motif_state = None  # the pull was answered at once: no window to play in
+            return None
+        if k == 2:
+            a = self._add_args(channel=rng.choice(m["chans"] or c.channels))
+            a.pop("wait", None)
+            m["before"] = set(model.jobs)
+            return ["send", rng.choice(sendable), "qadd", a]
+        if k < 3 + m["events"]:
+            new = [j for jid, j in model.jobs.items() if jid not in m.get("before", ())]
+            jid = sorted(new, key=lambda j: j.serial)[-1].jobid if new else self._known_id()
+            used = {x.channel for x in model.jobs.values()}
+            fresh = [x for x in c.channels if x not in used]
+            ev = rng.choice(["add-other", "add-other", "add-same", "kill", "kill", "finish", "drop", "disconnect", "reset",
+                             "pull", "tick"])
+            others = [n for n in sendable if n != m["W"]] or sendable
+            if ev == "add-other":
+                a = self._add_args(channel=rng.choice(fresh or c.channels))
+                a.pop("wait", None)
+                return ["send", rng.choice(others), "qadd", a]
+            if ev == "add-same":
+                a = self._add_args(channel=rng.choice(m["chans"] or c.channels))
+                a.pop("wait", None)
+                return ["send", rng.choice(others), "qadd", a]
+            if ev == "kill":
+                return ["send", rng.choice(others), "qkill", {"jobids": [jid]}]
+            if ev == "finish":
+                return ["send", rng.choice(others), "qfinish", {"jobid": jid, "result": {"r": 1}}]
+            if ev == "drop":
+                return ["send", rng.choice(others), "qdrop", {"jobids": [jid]}]
+            if ev in ("disconnect", "reset") and self.sim.is_live(m["W"]) and c.faults:
+                return [ev, m["W"]]
+            if ev == "pull":
+                ws = [n for n in self._sendable(c.workers) if n != m["W"]]
+                if ws:
+                    return ["send", rng.choice(ws), "qpull", {"channels": m["chans"]}]
+            return ["tick", 1]
+        self._motif_state = None
+        self.fault("motif-storm-in-hand-off-window")
+        return ["run"]
+
     def _motif_new_add(self, timeout):
         a = self._add_args()
         a.pop("wait", None)
@@ -251,6 +317,8 @@ class QsRun:
         if not sendable:
             return None
         cid = self.sim.cid
+        if m.get("kind") == "window":
+            return self._motif_window(m, sendable)
         if m.get("kind") == "deadlines":
             # 'deadlines out of order across a restart': a job with a long time limit is added before
             # one with a short limit, the server restarts, and the clock passes the short limit only
@@ -309,8 +377,9 @@ class QsRun:
                 and len(self.steps) >= 4:
             self._motif_done = True
             self._motif_state = dict(c["motif"], stage=0)
-        if getattr(self, "_motif_state", None) is not None and self._events_in_quantum == 0 \
-                and rng.random() < self._motif_state["p"]:
+        ms = getattr(self, "_motif_state", None)
+        if ms is not None and (ms.get("kind") == "window" or
+                               (self._events_in_quantum == 0 and rng.random() < ms["p"])):
             st = self._motif_step()
             if st is not None:
                 return st
@@ -364,7 +433,14 @@ class QsRun:
         s = self._sendable(c.clients + c.workers)
         if not s:
             return ["run"]
-        return ["send", rng.choice(s), "qadd", self._add_args(channel=j.channel)]
+        ch = j.channel
+        others = [x for x in c.channels if x != j.channel]
+        if others and rng.random() < 0.4:
+            # another channel - preferably one the server has not seen a job on yet
+            used = {x.channel for x in model.jobs.values()}
+            fresh = [x for x in others if x not in used]
+            ch = rng.choice(fresh or others)
+        return ["send", rng.choice(s), "qadd", self._add_args(channel=ch)]
 
     def _add_args(self, channel=None, wait=False):
         c, rng = self.config, self.rng
